@@ -12,6 +12,7 @@ theorem pos_prefix (op : UnOp) (x : Expr) (hop : isPostfix op = false)
     (h : needParen x.prec (unPrec op) prefixOperandSide = false) : x.lvl ≤ 2 := by
   cases op <;> simp [isPostfix] at hop <;>
   (cases x with
+   | lit l => simp only [Expr.prec, Expr.lvl, litPrec] at h ⊢ <;> generalize litNegative l = b at h ⊢ <;> cases b <;> revert h <;> decide
    | un o _ => cases o <;> simp only [Expr.prec, Expr.lvl] at h ⊢ <;> revert h <;> decide
    | bin o _ _ => cases o <;> simp only [Expr.prec, Expr.lvl] at h ⊢ <;> revert h <;> decide
    | _ => simp only [Expr.prec, Expr.lvl] at h ⊢ <;> revert h <;> decide)
@@ -20,6 +21,7 @@ theorem pos_postfix (op : UnOp) (x : Expr) (hop : isPostfix op = true)
     (h : needParen x.prec (unPrec op) postfixOperandSide = false) : x.lvl ≤ 1 := by
   cases op <;> simp [isPostfix] at hop <;>
   (cases x with
+   | lit l => simp only [Expr.prec, Expr.lvl, litPrec] at h ⊢ <;> generalize litNegative l = b at h ⊢ <;> cases b <;> revert h <;> decide
    | un o _ => cases o <;> simp only [Expr.prec, Expr.lvl] at h ⊢ <;> revert h <;> decide
    | bin o _ _ => cases o <;> simp only [Expr.prec, Expr.lvl] at h ⊢ <;> revert h <;> decide
    | _ => simp only [Expr.prec, Expr.lvl] at h ⊢ <;> revert h <;> decide)
@@ -28,6 +30,7 @@ theorem pos_binL (op : BinOp) (x : Expr) (h : needParen x.prec (binPrec op) binL
     (binLevel op ≠ 14 → x.lvl ≤ binLevel op ∧ (x.lvl = 15 → binLevel op = 15)) ∧ (binLevel op = 14 → x.lvl ≤ 12) := by
   cases op <;>
   (cases x with
+   | lit l => simp only [Expr.prec, Expr.lvl, litPrec] at h ⊢ <;> generalize litNegative l = b at h ⊢ <;> cases b <;> revert h <;> decide
    | un o _ => cases o <;> simp only [Expr.prec, Expr.lvl] at h ⊢ <;> revert h <;> decide
    | bin o _ _ => cases o <;> simp only [Expr.prec, Expr.lvl] at h ⊢ <;> revert h <;> decide
    | _ => simp only [Expr.prec, Expr.lvl] at h ⊢ <;> revert h <;> decide)
@@ -36,18 +39,21 @@ theorem pos_binR (op : BinOp) (x : Expr) (h : needParen x.prec (binPrec op) binR
     (binLevel op ≠ 14 → x.lvl ≤ binLevel op - 1) ∧ (binLevel op = 14 → x.lvl ≤ 14) := by
   cases op <;>
   (cases x with
+   | lit l => simp only [Expr.prec, Expr.lvl, litPrec] at h ⊢ <;> generalize litNegative l = b at h ⊢ <;> cases b <;> revert h <;> decide
    | un o _ => cases o <;> simp only [Expr.prec, Expr.lvl] at h ⊢ <;> revert h <;> decide
    | bin o _ _ => cases o <;> simp only [Expr.prec, Expr.lvl] at h ⊢ <;> revert h <;> decide
    | _ => simp only [Expr.prec, Expr.lvl] at h ⊢ <;> revert h <;> decide)
 
 theorem pos_ternC (x : Expr) (h : needParen x.prec precTernaryConditional ternCondSide = false) : x.lvl ≤ 12 := by
   cases x with
+  | lit l => simp only [Expr.prec, Expr.lvl, litPrec] at h ⊢ <;> generalize litNegative l = b at h ⊢ <;> cases b <;> revert h <;> decide
   | un o _ => cases o <;> simp only [Expr.prec, Expr.lvl] at h ⊢ <;> revert h <;> decide
   | bin o _ _ => cases o <;> simp only [Expr.prec, Expr.lvl] at h ⊢ <;> revert h <;> decide
   | _ => simp only [Expr.prec, Expr.lvl] at h ⊢ <;> revert h <;> decide
 
 theorem pos_ternA (x : Expr) (h : needParen x.prec precTernaryConditional ternTrueSide = false) : x.lvl ≤ 14 := by
   cases x with
+  | lit l => simp only [Expr.prec, Expr.lvl, litPrec] at h ⊢ <;> generalize litNegative l = b at h ⊢ <;> cases b <;> revert h <;> decide
   | un o _ => cases o <;> simp only [Expr.prec, Expr.lvl] at h ⊢ <;> revert h <;> decide
   | bin o _ _ => cases o <;> simp only [Expr.prec, Expr.lvl] at h ⊢ <;> revert h <;> decide
   | _ => simp only [Expr.prec, Expr.lvl] at h ⊢ <;> revert h <;> decide
@@ -55,6 +61,7 @@ theorem pos_ternA (x : Expr) (h : needParen x.prec precTernaryConditional ternTr
 theorem pos_ternB (x : Expr) (h : needParen x.prec precTernaryConditional ternFalseSide = false) :
     x.lvl ≤ 14 ∧ (x.lvl = 14 → falseIsAssignment x = true) := by
   cases x with
+  | lit l => simp only [Expr.prec, Expr.lvl, litPrec, falseIsAssignment] at h ⊢ <;> generalize litNegative l = b at h ⊢ <;> cases b <;> revert h <;> decide
   | un o _ => cases o <;> simp only [Expr.prec, Expr.lvl, falseIsAssignment] at h ⊢ <;> revert h <;> decide
   | bin o _ _ => cases o <;> simp only [Expr.prec, Expr.lvl, falseIsAssignment] at h ⊢ <;> revert h <;> decide
   | _ => simp only [Expr.prec, Expr.lvl, falseIsAssignment] at h ⊢ <;> revert h <;> decide
@@ -63,12 +70,14 @@ theorem pos_postfixLike (x : Expr) (side : Side) (hs : side = .Left ∨ side = .
     (h : needParen x.prec 2 side = false) : x.lvl ≤ 1 := by
   rcases hs with rfl | rfl <;>
   (cases x with
+   | lit l => simp only [Expr.prec, Expr.lvl, litPrec] at h ⊢ <;> generalize litNegative l = b at h ⊢ <;> cases b <;> revert h <;> decide
    | un o _ => cases o <;> simp only [Expr.prec, Expr.lvl] at h ⊢ <;> revert h <;> decide
    | bin o _ _ => cases o <;> simp only [Expr.prec, Expr.lvl] at h ⊢ <;> revert h <;> decide
    | _ => simp only [Expr.prec, Expr.lvl] at h ⊢ <;> revert h <;> decide)
 
 theorem pos_arg (x : Expr) (h : needParen x.prec callArgPrec callArgSide = false) : x.lvl ≤ 14 := by
   cases x with
+  | lit l => simp only [Expr.prec, Expr.lvl, litPrec] at h ⊢ <;> generalize litNegative l = b at h ⊢ <;> cases b <;> revert h <;> decide
   | un o _ => cases o <;> simp only [Expr.prec, Expr.lvl] at h ⊢ <;> revert h <;> decide
   | bin o _ _ => cases o <;> simp only [Expr.prec, Expr.lvl] at h ⊢ <;> revert h <;> decide
   | _ => simp only [Expr.prec, Expr.lvl] at h ⊢ <;> revert h <;> decide
@@ -134,8 +143,7 @@ theorem head_fmt : (e : Expr) → WF e → ∀ outer side, ∃ t ts', toks (fmtS
       | .lit n, hwf =>
         refine ⟨.lit n, [], ?_, by simp [GoodStart, Tok.isLt, Tok.isGt], fun _ => rfl⟩
         simp only [fmtSub]
-        have : needParen precLiteral topPrec topSide = false := by decide
-        rw [this, wrap_false, litOk_toks n hwf]
+        rw [needParen_top_lit, wrap_false, litOk_toks n hwf]
       | .id n, _ =>
         refine ⟨.id n, [], ?_, by simp [GoodStart, Tok.isLt, Tok.isGt], fun _ => rfl⟩
         simp only [fmtSub]
@@ -191,12 +199,19 @@ theorem head_fmt : (e : Expr) → WF e → ∀ outer side, ∃ t ts', toks (fmtS
         simp only [fmtSub]
         have : needParen precMember topPrec topSide = false := by decide
         rw [this, wrap_false]
-        obtain ⟨t, ts', h1, h2, h3⟩ := head_fmt o hwf precMember memObjectSide
-        simp only [toks_append, h1]
-        refine ⟨t, _, by simp; rfl, h2, fun _ => h3 ?_⟩
-        cases hpx : needParen o.prec precMember memObjectSide with
-        | true => exact Or.inl rfl
-        | false => exact Or.inr (pos_postfixLike o _ (Or.inl rfl) hpx)
+        cases hmp : memObjParen o with
+        | true =>
+          refine ⟨.p .LeftParen, (toks (fmtSub o precMember memObjectSide) ++ [.p .RightParen]) ++ toks [pp .Period, .t (.id n) n],
+            ?_, by simp [GoodStart, Tok.isLt, Tok.isGt], fun _ => rfl⟩
+          rw [toks_append, toks_wrap_true]; rfl
+        | false =>
+          rw [wrap_false]
+          obtain ⟨t, ts', h1, h2, h3⟩ := head_fmt o hwf precMember memObjectSide
+          simp only [toks_append, h1]
+          refine ⟨t, _, by simp; rfl, h2, fun _ => h3 ?_⟩
+          cases hpx : needParen o.prec precMember memObjectSide with
+          | true => exact Or.inl rfl
+          | false => exact Or.inr (pos_postfixLike o _ (Or.inl rfl) hpx)
       | .tern c a b, hwf =>
         simp only [fmtSub]
         have : needParen precTernaryConditional topPrec topSide = false := by decide
